@@ -14,6 +14,9 @@
 (*   a -> s  "wprs"    await greenback.with_portal_run_sync(fn)            *)
 (*   s -> s  "call"                                                        *)
 (*   s -> a  "await_"  greenback.await_(fn())    (needs an active portal)  *)
+(*   s -> a  "await_o" greenback.await_(obj) with obj a NON-coroutine       *)
+(*                     awaitable wrapping fn(): greenback then drives the  *)
+(*                     coroutine adapt_awaitable(obj)  (frame ADAPT)       *)
 (* plus ens: the task called greenback.ensure_portal() (portal for the     *)
 (* rest of its life, wrapping the task's own coroutine).  A "wpr"/"wprs"   *)
 (* edge CREATES a portal only if none is active at the time of the call    *)
@@ -66,6 +69,7 @@ PortalActive(s, e) == e \/ \E i \in 1..Len(s) : s[i].creates
 PreOf(f) == CASE f.edge = "wpr"    -> IF f.creates THEN <<F("WPR"), F("SH"), F("TR"), F("SEND")>> ELSE <<F("WPR")>>
               [] f.edge = "wprs"   -> IF f.creates THEN <<F("WPRS"), F("SHS")>> ELSE <<F("WPRS")>>
               [] f.edge = "await_" -> <<F("AW"), F("SEND")>>
+              [] f.edge = "await_o" -> <<F("AW"), F("SEND"), F("ADAPT")>>
               [] OTHER             -> <<>>
 FlatRaw(s, e, park) ==
   (IF e THEN <<F("GS"), F("SH"), F("TR"), F("SEND")>> ELSE <<>>)
@@ -103,7 +107,10 @@ HasHook(fn) == fn \in {"SH", "TR", "AW"} \/ (fn = "SHS" /\ FixedF17)
 Passable(P, park, p) == Link(P, park, p) # "glue" \/ HasHook(P[p - 1].fn)
 WalkLen(P, park) == IF \A p \in 2..Len(P) : Passable(P, park, p) THEN Len(P)
                     ELSE Min({p \in 2..Len(P) : ~Passable(P, park, p)}) - 1
-Hidden(fn) == fn \in {"SH", "TR", "SEND", "AW", "TRAP"} \/ (fn = "SHS" /\ FixedF17)
+\* "any": the property does not say (portal entry points GS / WPR / WPRS and the adapt_awaitable coroutine are reported
+\* visible by the current code; hiding them would not break C15, so the replay does not compare their flag)
+Hidden(fn) == IF fn \in {"SH", "TR", "SEND", "AW", "TRAP"} \/ (fn = "SHS" /\ FixedF17) THEN "yes"
+              ELSE IF fn \in {"GS", "WPR", "WPRS", "ADAPT"} THEN "any" ELSE "no"
 \* the contexts a user frame holds: the with-block around the call of its callee
 CtxOf(s, u) == IF u = 0 \/ u >= Len(s) THEN "none" ELSE s[u + 1].cm
 Walk(s, e, park) ==
@@ -122,7 +129,7 @@ Init == stk = <<Root>> /\ ens = FALSE /\ acts = <<>> /\ obs = <<Observation(<<Ro
 
 Edges(s, e) == IF Top(s).kind = "a"
                THEN {<<"a", "await">>, <<"a", "wpr">>, <<"s", "call">>, <<"s", "wprs">>}
-               ELSE {<<"s", "call">>} \cup (IF PortalActive(s, e) THEN {<<"a", "await_">>} ELSE {})
+               ELSE {<<"s", "call">>} \cup (IF PortalActive(s, e) THEN {<<"a", "await_">>, <<"a", "await_o">>} ELSE {})
 \* with-blocks: an async frame uses `async with M()`, a sync frame `with M()` or, under a portal,
 \* `with greenback.async_context(AM())` (whose Context must show the wrapped async manager)
 Cms(s, e) == IF ~WithCms THEN {"none"}
@@ -142,7 +149,7 @@ Return == /\ Len(stk) > 1
 \* await greenback.ensure_portal() by the innermost frame (a no-op for the structure when a portal is active)
 Ensure == /\ Top(stk).kind = "a"
           /\ Tick([a |-> "ensure", kind |-> "-", edge |-> "-", cm |-> "-"], stk, ens \/ ~PortalActive(stk, ens))
-Next == (\E ke \in {"a", "s"} \X {"await", "wpr", "call", "wprs", "await_"}, cm \in {"none", "async", "sync", "gb"} : Call(ke, cm))
+Next == (\E ke \in {"a", "s"} \X {"await", "wpr", "call", "wprs", "await_", "await_o"}, cm \in {"none", "async", "sync", "gb"} : Call(ke, cm))
         \/ Return \/ Ensure
 Spec == Init /\ [][Next]_vars
 View == <<stk, ens>>
@@ -159,7 +166,7 @@ BridgeContinuesOutside == CanPark(stk, ens) => UserIdx(Walk(stk, ens, TRUE)) = A
 Internals == {"SH", "SHS", "TR", "SEND", "AW"}
 InternalsHidden == \A park \in BOOLEAN : (park => CanPark(stk, ens)) =>
                      \A x \in {Walk(stk, ens, park)[p] : p \in 1..Len(Walk(stk, ens, park))} :
-                        (x.fn \in Internals => x.hide) /\ (x.fn = "U" => ~x.hide)
+                        (x.fn \in Internals => x.hide = "yes") /\ (x.fn = "U" => x.hide = "no")
 \* structural sanity of the physical model
 OneGreenlet == Cardinality(Idx(Phys(stk, ens, FALSE), {"TR", "SHS"})) <= 1
 PortalIffGreenlet == PortalActive(stk, ens) <=> GStart(Phys(stk, ens, FALSE)) # 0
